@@ -32,15 +32,6 @@ def _driver(cfg, pup_argv, res_fd):
     try:
         import pexpect
         import pexpect.pty_spawn as ps
-        # distinctive mode: canonical, no echo, no output post-processing, odd VMIN/VTIME-free flags
-        a = termios.tcgetattr(0)
-        a[1] &= ~termios.OPOST
-        a[3] &= ~(termios.ECHO | termios.ECHOE | termios.ECHOK)
-        a[3] |= termios.ICANON | termios.ISIG
-        a[0] |= termios.ICRNL
-        a[0] &= ~termios.IXON
-        termios.tcsetattr(0, termios.TCSANOW, a)
-        before = termios.tcgetattr(0)
         sys.stdout = io.TextIOWrapper(io.FileIO(1, 'w', closefd=False), encoding='utf-8', errors='strict')
         sys.stdin = io.TextIOWrapper(io.FileIO(0, 'r', closefd=False), encoding='utf-8')
         enc = cfg.get('enc')
@@ -62,6 +53,26 @@ def _driver(cfg, pup_argv, res_fd):
         for nm in logs:
             setattr(child, nm, Rec(nm))
         emit('SPAWNED %d' % child.pid)
+        if cfg.get('prior'):
+            # an earlier interact() session on the same object, entered and left in the terminal mode as found;
+            # the mode is changed afterwards, so the session under test starts from a different one
+            m1 = termios.tcgetattr(0)
+            emit('PRIOR')
+            try:
+                child.interact()
+            except BaseException as e:
+                out['prior_error'] = ''.join(traceback.format_exception_only(type(e), e)).strip()
+            out['prior_mode_restored'] = (termios.tcgetattr(0) == m1)
+            emit('PRIOR-DONE')
+        # distinctive mode: canonical, no echo, no output post-processing, odd VMIN/VTIME-free flags
+        a = termios.tcgetattr(0)
+        a[1] &= ~termios.OPOST
+        a[3] &= ~(termios.ECHO | termios.ECHOE | termios.ECHOK)
+        a[3] |= termios.ICANON | termios.ISIG
+        a[0] |= termios.ICRNL
+        a[0] &= ~termios.IXON
+        termios.tcsetattr(0, termios.TCSANOW, a)
+        before = termios.tcgetattr(0)
         if cfg.get('pending'):
             # wait for the harness to make the inner child write PENDING-text, consume a prefix of it
             child.expect_exact('<<' if enc else b'<<')
